@@ -1,7 +1,7 @@
 ---- MODULE MC_BufScen ----
 EXTENDS BufScenarios
 \* limits: [num, size]; the size of an event is `size` per event plus 1 per parent (set by the harness wrapper)
-LimitsQ == {[num |-> 100, size |-> 100000], [num |-> 1, size |-> 100000], [num |-> 2, size |-> 100000], [num |-> 100, size |-> 25]}
+LimitsQ == {[num |-> 0, size |-> 100000], [num |-> 100, size |-> 5], [num |-> 100, size |-> 100000], [num |-> 1, size |-> 100000], [num |-> 2, size |-> 100000], [num |-> 100, size |-> 25]}
 SizesQ == {10}
 FailAll == {"check", "process"}
 FailNone == {}
